@@ -724,6 +724,9 @@ type c16Edge struct {
 	Kind string    `json:"kind"`
 	Desc string    `json:"desc"`
 	Mid  *dbSchema `json:"mid,omitempty"` // 2-chain: old -> mid -> new
+	// Direct: the two edits of the chain applied at once: one delta old -> new (both steps are first checked
+	// to be sound on their own, as for chains)
+	Direct bool `json:"direct,omitempty"`
 }
 
 func (c16) Cases(tier string, emit func(string, interface{})) {
@@ -774,6 +777,9 @@ func c16Explore(maxT, depth, deepEvery, chainEvery int, seenState, seenEdge map[
 						for _, e2 := range edits(e.To) {
 							mid := e.To
 							emit("chain", c16Edge{Old: n.s, Mid: &mid, New: e2.To, Kind: e.Kind + "+" + e2.Kind, Desc: e.Desc + "; " + e2.Desc})
+							if n.s.canon() != e2.To.canon() {
+								emit("compound", c16Edge{Old: n.s, Mid: &mid, New: e2.To, Kind: e.Kind + "+" + e2.Kind, Desc: e.Desc + "; " + e2.Desc, Direct: true})
+							}
 						}
 					}
 				}
@@ -945,6 +951,10 @@ func (c16) Run(c core.Case) core.Outcome {
 			}
 		}
 	}
+	if e.Direct {
+		steps = [][2]*sysl.Module{{oldM, newM}}
+		desc = fmt.Sprintf("old:\n%snew (two edits at once: %s):\n%s", e.Old.render(app), e.Desc, e.New.render(app))
+	}
 	cat := newCatalog()
 	oldScript, _ := genCreate(oldM, app)
 	cat.exec(oldScript)
@@ -964,6 +974,9 @@ func (c16) Run(c core.Case) core.Outcome {
 			return o
 		}
 		if serr != "" {
+			if e.Direct && strings.Contains(serr, "still referenced by") {
+				return fail("delta-fails|compound:referenced-column-dropped-before-its-reference", fmt.Sprintf("%sone delta that removes a reference and the key column it pointed to drops the key column first (tables are processed in dependency order, referenced table first): %s\n%s", desc, serr, script))
+			}
 			if e.Mid != nil && strings.Contains(e.Kind, "drop-table") && strings.Contains(serr, "still referenced by") {
 				return fail("delta-fails|chain:dropped-table-left-behind", fmt.Sprintf("%sa table dropped in an earlier version is never dropped by the delta, so a later delta fails: %s\n%s", desc, serr, script))
 			}
@@ -981,6 +994,9 @@ func (c16) Run(c core.Case) core.Outcome {
 		}
 		if e.Mid != nil {
 			kind = "chain:" + kind
+		}
+		if e.Direct {
+			kind = "compound:" + e.Kind
 		}
 		tail := "|" + firstWord(d)
 		if strings.Contains(kind, "retarget-reference") {
